@@ -4,6 +4,7 @@ import (
 	"encoding/json"
 	"fmt"
 	"os"
+	"os/exec"
 	"path/filepath"
 	"sort"
 	"strings"
@@ -11,7 +12,57 @@ import (
 	"time"
 
 	"github.com/go-task/task/v3/verifh/h"
+	"github.com/go-task/task/v3/verifh/p08/hang"
 )
+
+// Watchdogs are generous and never decide anything by themselves: when one
+// fires the child's goroutine dump is judged (package hang).
+const (
+	cliWatchdog   = 40 * time.Second
+	childWatchdog = 90 * time.Second
+)
+
+// tableChild runs the table worker on one tree.
+func tableChild(worker, scratch string, t *Tree, dir string) (*TableResult, hang.Result, string) {
+	tj := filepath.Join(scratch, fmt.Sprintf("t%04d.json", t.Index))
+	oj := filepath.Join(scratch, fmt.Sprintf("t%04d.out.json", t.Index))
+	b, _ := json.Marshal(t)
+	os.WriteFile(tj, b, 0o644)
+	defer os.Remove(tj)
+	defer os.Remove(oj)
+	cmd := exec.Command(worker, tj, dir, oj)
+	cmd.Dir = dir
+	cmd.Env = append(h.BaseEnv(dir), "P08_NOTIFY="+os.Getenv("P08_NOTIFY"))
+	hr := hang.Run(cmd, childWatchdog)
+	if hr.Fired || hr.RuntimeDeadlock {
+		return nil, hr, ""
+	}
+	rb, err := os.ReadFile(oj)
+	if err != nil || hr.Exit != 0 {
+		return nil, hr, fmt.Sprintf("exit %d, %s", hr.Exit, h.Truncate(hr.Stderr, 1500))
+	}
+	var tr TableResult
+	if err := json.Unmarshal(rb, &tr); err != nil {
+		return nil, hr, "unreadable worker output: " + err.Error()
+	}
+	return &tr, hr, ""
+}
+
+// hangVerdict turns a fired watchdog into a verdict from the goroutine dump:
+// a deadlock of the code under test is a violation, anything else inconclusive.
+func hangVerdict(part *h.Partial, report func(Finding, map[string]any), t *Tree, r hang.Result, what, kind string) {
+	if r.Fired {
+		part.Count("watchdogs_fired", 1)
+	} else {
+		part.Count("runtime_deadlocks", 1)
+	}
+	if r.Deadlock {
+		report(Finding{"C08 | hang | " + kind + " | " + r.Frame, fmt.Sprintf("%s never returned: %s; blocked at %s", what, r.Why, r.Frame)},
+			map[string]any{"expected": "an error and a non-zero exit", "goroutine_dump": h.Truncate(r.Dump, 12000)})
+		return
+	}
+	part.Inconc(fmt.Sprintf("tree %d (%s): watchdog fired on %s; the goroutine dump does not show a deadlock (%s)", t.Index, t.Kind, what, r.Why))
+}
 
 const rule = "programs: seeded include trees of profile incl (depth <= 3, 1-3 includes per file, diamonds, the same file under two namespaces, Taskfiles in the root and in sub directories, include by file and by directory); include options {dir, optional(+missing file), internal, flatten, aliases, excludes, vars}: the empty set, every single option, all 21 pairs, then random triples, dealt to the include entries in that order; every file has tasks default/build/test/helper/excl/up with the SAME local names in every file (files meant to be flattened carry the file id in their task names), deps and task: references between them, ':'-prefixed references to the root's helper/rootonly, and one attribute carrier task that sets every YAML key of a task (never run). Fault trees: include cycles (self, 2, 3), missing non-optional file (depth 1 and deeper), schema version mismatch, an included file without version, flatten name conflicts (with the parent, between siblings), a parent task named like a namespaced included task; each kind plain and with the fault 1 and 2 include levels BELOW an include marked optional whose file exists (optional excuses only a missing file). Every sixth tree has a forced diamond (two short-form siblings including one common file in the long form with different dir and vars); every file has a dynamic variable DV (sh: pwd). " +
 	"oracle: the include model of DESIGN Appendix C written from the documentation. (1) structural: after Setup in-process the key set of e.Taskfile.Tasks equals the model's name set and every exported field of ast.Task (enumerated by reflection) of every merged task equals its definition modulo the documented rewrites (name, deps/call targets, aliases, internal, dir, location); (2) behavioural: every callable name and alias is run through the rebuilt CLI; the multiset of probe lines ORIGIN=<file>#<task> TASK PWD FV IV DV must equal the model's trace (deps and task: references followed, ':' bound to the root Taskfile), internal names must fail and run nothing, --list-all --json must list exactly the non-internal names; fault trees must exit non-zero with no probe line. " +
@@ -128,8 +179,21 @@ func Run(id string, start time.Time) int {
 		fmt.Fprintf(os.Stderr, "%s: %v\n", id, err)
 		return 2
 	}
+	// everything that loads generated trees in-process runs in a child: build it against the same repository
+	worker := filepath.Join(scratch, "p08worker")
+	bargs := []string{"build"}
+	if mf := os.Getenv("VERIF_MODFILE"); mf != "" {
+		bargs = append(bargs, "-modfile="+mf)
+	}
+	bc := exec.Command("go", append(bargs, "-o", worker, "./p08/worker")...)
+	bc.Dir = filepath.Join(h.VerifDir(), "harness")
+	bc.Env = h.GoEnv()
+	if b, err := bc.CombinedOutput(); err != nil {
+		fmt.Fprintf(os.Stderr, "%s: building the table worker against %s failed: %v\n%s\n", id, h.RepoDir(), err, b)
+		return 2
+	}
 	nOK := h.Pick(70, 700)
-	nFault := h.Pick(60, 300)
+	nFault := h.Pick(66, 330)
 	maxNames := h.Pick(40, 120)
 
 	// the option sets are dealt to include entries in a fixed order: pairwise first
@@ -167,7 +231,7 @@ func Run(id string, start time.Time) int {
 		}
 	}
 
-	h.Parallel(len(trees), 16, func(i int) { runTree(part, bin, scratch, trees[i], maxNames) })
+	h.Parallel(len(trees), 16, func(i int) { runTree(part, bin, worker, scratch, trees[i], maxNames) })
 
 	// coverage of the reflection-driven field comparison
 	fieldMu.Lock()
@@ -233,7 +297,7 @@ func witness(t *Tree, extra map[string]any) map[string]string {
 	return w
 }
 
-func runTree(part *h.Partial, bin, scratch string, t *Tree, maxNames int) {
+func runTree(part *h.Partial, bin, worker, scratch string, t *Tree, maxNames int) {
 	dir := filepath.Join(scratch, fmt.Sprintf("t%04d", t.Index))
 	files := map[string]string{}
 	for _, f := range t.Files {
@@ -281,23 +345,34 @@ func runTree(part *h.Partial, bin, scratch string, t *Tree, maxNames int) {
 			part.Count("fault_trees_below_optional", 1)
 		}
 		part.SetAdd("fault_kinds", t.Kind+"=>"+m.Err)
-		_, serr := Setup(dir)
-		r := h.CLI{Bin: bin, Dir: dir, Args: []string{"--silent", "default"}}.Run()
+		kind := m.Err + below
+		// in-process load, in a child
+		tr, chr, cerr := tableChild(worker, scratch, t, dir)
 		part.Eval(t.Hash+"|fault", true)
-		if r.TimedOut {
-			part.Inconc(fmt.Sprintf("tree %d: watchdog", t.Index))
+		switch {
+		case chr.Fired || chr.RuntimeDeadlock:
+			hangVerdict(part, report, t, chr, "Executor.Setup (table worker)", kind)
+		case cerr != "":
+			report(Finding{"C08 | setup.crash | " + kind, fmt.Sprintf("the tree has a %s (%s); the process that ran Executor.Setup died: %s", m.Err, t.Kind, h.Truncate(cerr, 600))}, map[string]any{"expected": "error", "fault": t.Kind, "stderr": h.Truncate(chr.Stderr, 3000)})
+		case tr.Panic != "":
+			report(Finding{"C08 | setup.panic | " + kind, fmt.Sprintf("the tree has a %s (%s); Executor.Setup panicked instead of returning an error: %s", m.Err, t.Kind, tr.Panic)}, map[string]any{"expected": "error", "fault": t.Kind, "stack": h.Truncate(tr.Stack, 3000)})
+		case tr.SetupErr == "":
+			report(Finding{"C08 | error-not-reported | " + kind + " | setup", fmt.Sprintf("the tree has a %s (%s) but Executor.Setup returned no error", m.Err, t.Kind)}, map[string]any{"expected": "error", "fault": t.Kind})
+		}
+		// the CLI, under the deadlock-judging watchdog
+		cmd := exec.Command(bin, "--silent", "default")
+		cmd.Dir = dir
+		cmd.Env = h.BaseEnv(dir)
+		r := hang.Run(cmd, cliWatchdog)
+		part.Count("fault_cli_runs", 1)
+		if r.Fired || r.RuntimeDeadlock {
+			hangVerdict(part, report, t, r, "`task default`", kind)
 			return
 		}
 		part.SetAdd("fault_exit_codes", fmt.Sprintf("%s:%d", m.Err, r.Exit))
 		lines := parseLines(r.Stdout)
-		if pe, ok := serr.(*PanicError); ok {
-			report(Finding{"C08 | setup.panic | " + m.Err + below, fmt.Sprintf("the tree has a %s (%s); Executor.Setup panicked instead of returning an error: %s", m.Err, t.Kind, pe.Value)}, map[string]any{"expected": "error", "fault": t.Kind, "stack": h.Truncate(pe.Stack, 3000)})
-		}
-		if serr == nil {
-			report(Finding{"C08 | error-not-reported | " + m.Err + below + " | setup", fmt.Sprintf("the tree has a %s (%s) but Executor.Setup returned no error", m.Err, t.Kind)}, map[string]any{"expected": "error", "fault": t.Kind})
-		}
 		if r.Exit == 0 || len(lines) > 0 || r.Crashed() {
-			report(Finding{"C08 | error-not-reported | " + m.Err + below + " | cli", fmt.Sprintf("the tree has a %s (%s); `task default` exited %d and printed %d probe lines", m.Err, t.Kind, r.Exit, len(lines))},
+			report(Finding{"C08 | error-not-reported | " + kind + " | cli", fmt.Sprintf("the tree has a %s (%s); `task default` exited %d and printed %d probe lines", m.Err, t.Kind, r.Exit, len(lines))},
 				map[string]any{"expected": "non-zero exit, no probe line", "exit": r.Exit, "stdout": h.Truncate(r.Stdout, 2000), "stderr": h.Truncate(r.Stderr, 2000)})
 		}
 		if len(part.Samples) < 4 && t.Index%7 == 0 {
@@ -313,20 +388,36 @@ func runTree(part *h.Partial, bin, scratch string, t *Tree, maxNames int) {
 	part.Count("ok_trees", 1)
 
 	// ---- (1) structural
-	e, serr := Setup(dir)
+	tr, chr, cerr := tableChild(worker, scratch, t, dir)
 	part.Eval(t.Hash+"|table", len(t.Files) > 1)
-	if pe, ok := serr.(*PanicError); ok {
-		report(Finding{"C08 | setup.panic | ok-tree", fmt.Sprintf("Executor.Setup panicked: %s", pe.Value)}, map[string]any{"expected": "loads", "stack": h.Truncate(pe.Stack, 3000)})
+	switch {
+	case chr.Fired || chr.RuntimeDeadlock:
+		hangVerdict(part, report, t, chr, "Executor.Setup (table worker)", "ok-tree")
+		return
+	case cerr != "":
+		report(Finding{"C08 | setup.crash | ok-tree", fmt.Sprintf("the process that ran Executor.Setup died: %s", h.Truncate(cerr, 600))}, map[string]any{"expected": "loads", "stderr": h.Truncate(chr.Stderr, 3000)})
+		return
+	case tr.Panic != "":
+		report(Finding{"C08 | setup.panic | ok-tree", fmt.Sprintf("Executor.Setup panicked: %s", tr.Panic)}, map[string]any{"expected": "loads", "stack": h.Truncate(tr.Stack, 3000)})
+		return
+	case tr.SetupErr != "":
+		report(Finding{fmt.Sprintf("C08 | setup | unexpected-error | %s", tr.SetupErrType), fmt.Sprintf("the model expects the tree to load, Setup failed: %s", tr.SetupErr)}, map[string]any{"expected": "loads"})
 		return
 	}
-	if serr != nil {
-		report(Finding{fmt.Sprintf("C08 | setup | unexpected-error | %T", serr), fmt.Sprintf("the model expects the tree to load, Setup failed: %v", serr)}, map[string]any{"expected": "loads"})
-		return
+	part.Count("table_fields_compared", tr.Compared)
+	part.Count("table_tasks", int64(tr.Tasks))
+	fieldMu.Lock()
+	for k, v := range tr.FieldCmp {
+		fieldCmp[k] += v
 	}
-	fs, n := CheckTable(m, e)
-	part.Count("table_fields_compared", n)
-	part.Count("table_tasks", int64(len(m.Insts)))
-	for _, f := range fs {
+	for k, v := range tr.FieldNonZero {
+		fieldNonZero[k] += v
+	}
+	for _, k := range tr.Opaque {
+		opaqueTypes[k] = true
+	}
+	fieldMu.Unlock()
+	for _, f := range tr.Findings {
 		report(f, map[string]any{"check": "table"})
 	}
 
